@@ -11,6 +11,10 @@ COPY_FUNCS = {'copy', 'deepcopy', 'list', 'dict', 'set', 'tuple', 'sorted', 'arr
               'vstack'}
 
 
+# ndarray methods that return a VIEW sharing the data of their receiver (a new array object, same memory)
+VIEW_METHODS = {'view', 'reshape', 'ravel', 'transpose', 'squeeze', 'swapaxes', 'diagonal'}
+
+
 class Effect:
     def __init__(self, kind: str, fn: FuncInfo, node: ast.AST, what: str, chain: Tuple[str, ...] = ()):
         self.kind, self.fn, self.node, self.what, self.chain = kind, fn, node, what, chain
@@ -101,9 +105,17 @@ def analyse_operand(model: Model, fn: FuncInfo, operand: str, check_capture: boo
         r = root_name(e)
         return r is not None and r in tainted
 
+    view_names: Set[str] = set()
+    for n in walk_no_nested(fn.node):
+        if isinstance(n, ast.Assign) and len(n.targets) == 1 and isinstance(n.targets[0], ast.Name) and isinstance(n.value, ast.Call) \
+                and isinstance(n.value.func, ast.Attribute) and n.value.func.attr in VIEW_METHODS and rooted(n.value.func.value):
+            view_names.add(n.targets[0].id)
+
     for n in walk_no_nested(fn.node):
         # ---- direct mutation through the operand
         if isinstance(n, (ast.Attribute, ast.Subscript)) and isinstance(n.ctx, (ast.Store, ast.Del)) and rooted(n):
+            if isinstance(n, ast.Attribute) and isinstance(n.value, ast.Name) and n.value.id in view_names and n.attr in ('shape', 'strides'):
+                continue        # re-shaping one's own view object does not touch the operand
             out.append(Effect('mutation', fn, n, 'store through operand: `%s`' % norm(n), chain))
         if isinstance(n, ast.AugAssign) and isinstance(n.target, ast.Name) and n.target.id in tainted \
                 and n.target.id != operand:
@@ -235,7 +247,7 @@ def _is_alias_expr(model: Model, e: ast.AST, tainted: Set[str]) -> bool:
             cands = _methods_named(model, f.attr)
             if cands:
                 return any(_returns_alias(model, m) for m in cands)
-            return f.attr in ('values', 'items', 'keys', '__iter__', 'get')
+            return f.attr in ('values', 'items', 'keys', '__iter__', 'get') or f.attr in VIEW_METHODS
         if fname in ('iter', 'enumerate', 'zip', 'reversed'):
             return any(_is_alias_expr(model, a, tainted) for a in e.args)
     return False
